@@ -47,7 +47,7 @@ func findTextwireFiles() (map[string]string, error) {
 			return err
 		}
 
-		if info.IsDir() || !strings.Contains(path, userConfig.TemplateExt) {
+		if info.IsDir() || !strings.HasSuffix(path, userConfig.TemplateExt) {
 			return nil
 		}
 
